@@ -345,6 +345,11 @@ class Translator:
 
 def translate_function(fndef, name, params, fields=None, funcs=None, consts=None, ret_type=None, fuel=None, self_name='self', hints=None):
     """fndef: ast.FunctionDef; params: [(pyname, type)] excluding self.  Returns Coq text."""
+    # a decorator can change the function's behaviour (caching, wrapping): only the transparent ones are accepted
+    for d in fndef.decorator_list:
+        dn = ast.unparse(d)
+        if dn not in ('property', 'staticmethod', 'classmethod', 'abc.abstractmethod') and not dn.endswith('.setter'):
+            raise Unsupported('decorator @%s on %s' % (dn, name))
     argn = [a.arg for a in fndef.args.args]
     if fields is not None or (argn and argn[0] == self_name):
         argn = argn[1:] if argn and argn[0] == self_name else argn
